@@ -13,8 +13,8 @@ EXTENDS Lifecycle, Json, IOUtils
 Steps == ndJsonDeserialize(IOEnv.LC_STEPS)
 Cases == JsonDeserialize(IOEnv.LC_CASES)
 Plan  == Cases.plan
-K == WithCrash(MkK(Plan.D, Plan.S, Plan.W, Plan.maxd, SeqToSet(Plan.cd), SeqToSet(Plan.kinds), Plan.pairs,
-         SeqToSet(Plan.bury), Plan.rev, Plan.mir, Plan.mode, Plan.empty), Plan.crash)
+K == WithSwitches(WithCrash(MkK(Plan.D, Plan.S, Plan.W, Plan.maxd, SeqToSet(Plan.cd), SeqToSet(Plan.kinds), Plan.pairs,
+         SeqToSet(Plan.bury), Plan.rev, Plan.mir, Plan.mode, Plan.empty), Plan.crash), Plan.markFirst, Plan.dropOrphans)
 RC(c) == CASE c = 1 -> "ok" [] c = 2 -> "panic" [] OTHER -> "err"
 
 ChanFields == {"ph", "bh", "fg", "fh", "dsh", "mch", "uch", "ct", "our", "ht", "sl", "csh"}
@@ -41,6 +41,7 @@ RestartEq(e) == /\ ~e.rs.failed
                 /\ e.rs.mark = e.post.mark
                 /\ \A d \in 1..K.maxd : \A f \in ChanFields : e.rs.chans[d][f] = e.post.chans[d][f]
                 /\ e.rs.pst = e.post.pst /\ e.rs.lis = e.post.lis
+                /\ (K.crash \/ e.post.pl = e.post.lis)
                 /\ e.rs.feq
 C15r == l > 1 => LET e == Steps[l - 1] IN e.rc = 2 \/ (~e.post.dead /\ RestartEq(e))
 
